@@ -75,7 +75,7 @@ ENUM_TOKENS = [
     ('empty', "''"),
 ]
 _NT = len(ENUM_TOKENS)
-ENUM_ENVS = [None, {}, {'x': 'v w'}]
+ENUM_ENVS = [None, {}, {'x': 'v w'}, {'x': ''}]      # the last one: a variable that is defined and empty
 ENUM_CWDS = ['/srv/a b', '/srv/$(circus.wid)', None]
 ENUM_CWD_FIXED = '/srv/a b'
 # os.environ for the duration of a shard: small, and with a variable the configured env overrides
